@@ -12,6 +12,7 @@ import (
 	"fmt"
 	"math/rand/v2"
 	"net"
+	"os"
 	"testing"
 	"testing/synctest"
 	"time"
@@ -586,6 +587,43 @@ func runHistory(h *common.History, rng *rand.Rand, rd []rdesc, hd []hdesc) {
 	}
 }
 
+func runExhaustion(h *common.History) {
+	rd := []rdesc{{parent: -1, netip: ip4(1, 2, 3, 0), mask: 0xffffff00},
+		{parent: 0, netip: ip4(192, 168, 0, 0), mask: 0xffffff00, mb: 2, fb: 2, life: time.Hour, mapped: []uint32{ip4(1, 2, 3, 1)}}}
+	hd := []hdesc{{router: 0, statics: []uint32{ip4(1, 2, 3, 4)}}, {router: 1}}
+	w, err := build(rd, hd)
+	if err != nil {
+		panic(err)
+	}
+	h.Conf = w.conf()
+	defer w.finish()
+	do := func(op ...string) {
+		h.Ops = append(h.Ops, op)
+		h.Obs = append(h.Obs, w.exec(op))
+	}
+	do("7")
+	do("3", "0", "0", "7", "0", "0", "0")
+	do("3", "1", "0", "5000", "0", "0", "0")
+	do("1", "1", common.I(ip4(1, 2, 3, 4)), "7", "97")
+	do("2", "0")
+	for p := 10000; p < 10000+16390; p++ {
+		do("1", "1", common.I(ip4(1, 2, 3, 4)), common.I(p), "120")
+	}
+	do("1", "1", common.I(ip4(1, 2, 3, 4)), "7", "98")
+	do("2", "0")
+	do("2", "0")
+	h.Tags = append(h.Tags, "nat_ports_exhausted")
+}
+
+// quick tier: the model is not run on the 16 000-mapping history (a minute of list scans); what matters is checked
+// directly: the two datagrams of the established flow arrived, before and after the exhaustion (flag 16: lost)
+func exhaustionVerdict(h *common.History) {
+	ok := len(h.Obs) > 5 && h.Obs[4][0] == "1" && h.Obs[len(h.Obs)-2][0] == "1" && h.Obs[len(h.Obs)-1][0] == "-1"
+	h.Conf = []string{"9", "0", "0"}
+	h.Ops = [][]string{{"1", "16392"}}
+	h.Obs = [][]string{{map[bool]string{true: "0", false: "16"}[ok]}}
+}
+
 func parseConf(conf []string) ([]rdesc, []hdesc) {
 	var rd []rdesc
 	var hd []hdesc
@@ -635,6 +673,13 @@ func TestHarness(t *testing.T) {
 		}
 		for _, h := range hs {
 			if len(h.Conf) >= 2 && h.Conf[0] == "9" {
+				if h.Conf[1] == "0" { // the NAT port exhaustion history
+					h2 := &common.History{}
+					synctest.Test(t, func(*testing.T) { runExhaustion(h2) })
+					exhaustionVerdict(h2)
+					w.Put(h2)
+					continue
+				}
 				// replay of a concurrent history: same topology and flows (from the seed), fresh schedules, 20 times
 				conf := h.Conf
 				for rep := 0; rep < 20; rep++ {
@@ -663,6 +708,12 @@ func TestHarness(t *testing.T) {
 				r2 := common.Rng(seed, 0x0c)
 				synctest.Test(t, func(*testing.T) { runConc(h, r2, rd, hd) })
 				h.Conf = []string{"9", common.I(seed), common.I(i)}
+			} else if a.Seed%1000 == 0 && i == 0 {
+				// one long history per run: the NAT's dynamic ports are used up; established mappings must go on working
+				synctest.Test(t, func(*testing.T) { runExhaustion(h) })
+				if os.Getenv("C01_EXH_MODEL") == "" {
+					exhaustionVerdict(h)
+				}
 			} else {
 				rd, hd := genTopo(rng)
 				synctest.Test(t, func(*testing.T) { runHistory(h, rng, rd, hd) })
